@@ -47,6 +47,32 @@ def run(chk: Check, proj: Project) -> None:
     s7(chk, proj, m, fc)
     s8(chk, proj, m, fc)
     s9(chk, proj, m, fc, fs)
+    s10(chk, proj, m)
+
+
+def s10(chk: Check, proj: Project, m) -> None:
+    chk.rule("S10", "what is validated is what is called: the keys of a spread mapping reach the binding unchanged (Python's own `**` judges a non-string key), and the callable whose signature is inspected is the callable that is invoked (no unwrapping of decorators)")
+    f = m.func("resolve_params")
+    chk.analysed(fkey(m, f))
+    n = 0
+    for lp in [x for x in ast.walk(f) if isinstance(x, ast.For) and isinstance(x.iter, ast.Call) and isinstance(x.iter.func, ast.Attribute) and x.iter.func.attr == "items" and isinstance(x.target, ast.Tuple)]:
+        kv = norm(lp.target.elts[0])
+        for c in [c for c in ast.walk(lp) if isinstance(c, ast.Call) and last_attr(c.func) == "TagParam"]:
+            karg = kwarg(c, "key") or (c.args[0] if c.args else None)
+            n += 1
+            ok = karg is not None and norm(karg) == kv and not any(st for st, _v in assignments(f, kv) if any(a is lp for a in ancestors(st)))
+            chk.ob("S10", "util.template_tag:resolve_params:spread-keys-unchanged", m.loc(c), ok,
+                   f"TagParam(key={kv}, ...) forwards the mapping's key as it is" if ok else
+                   f"`{short(c)}` converts the key of a spread mapping: `...{{1: 2}}` calls render with the keyword '1' (Python's render(**{{1: 2}}) raises 'keywords must be strings'), and any object whose str() equals a parameter name binds that parameter")
+    chk.floor("S10", n, 1)
+    v = m.func("validate_params")
+    chk.analysed(fkey(m, v))
+    fp = params(v)[0]
+    bad = [st for st, _v in assignments(v, fp)] + [x for fn in (v, m.func("_validate_params_with_code"), m.func("_validate_params_with_signature")) for x in ast.walk(fn)
+                                                  if (isinstance(x, ast.Attribute) and x.attr in ("unwrap", "__wrapped__")) or (isinstance(x, ast.keyword) and x.arg == "follow_wrapped" and not (isinstance(x.value, ast.Constant) and x.value.value is False))]
+    chk.ob("S10", "util.template_tag:validate_params:inspects-the-callable-it-is-given", m.loc(bad[0]) if bad and hasattr(bad[0], "lineno") else m.loc(v), not bad,
+           f"`{fp}` is inspected as given (wrapper_render calls the same object)" if not bad else
+           f"`{short(bad[0] if isinstance(bad[0], ast.stmt) else enclosing_stmt(bad[0]))}`: the validator reads the signature / defaults of the UNDECORATED function while wrapper_render calls the decorated one - a functools.wraps decorator that injects or consumes an argument makes valid calls fail ('missing a required argument') and the inner default silently overrides the decorator's")
 
 
 def s9(chk: Check, proj: Project, m, fc, fs) -> None:
